@@ -61,3 +61,4 @@ func verifSkipCase()
 func verifRandStream(i int) []byte
 func verifDependsOnExact(v any, name string) bool
 func verifBytesSym(name string, max, spare int) []byte
+func verifByteAt(b []byte, i int) byte
